@@ -14,6 +14,7 @@
 #include "verif_rc.hpp"
 
 #include <cerrno>
+#include <omp.h>
 #include <csignal>
 #include <sys/resource.h>
 #include <sys/wait.h>
@@ -375,6 +376,9 @@ inline std::string compare_grid(DensitySubGridCreator<DensitySubGrid> &grid,
 
 inline VResult o_snapshot(const VCase &c) {
   VResult r;
+  // the read phase is forked: no OpenMP worker threads may exist in this
+  // process (grid initialisation has a parallel region)
+  omp_set_num_threads(1);
   Field f;
   for (int a = 0; a < 3; ++a) {
     f.n[a] = (int)c.i("ncell", a);
